@@ -103,7 +103,10 @@ def run(res, tier, seed):
         if len(ts) < 1:
             continue
         pub += 1
-        v = public_case(nap, ts, ep)
+        try:
+            v = public_case(nap, ts, ep)
+        except Exception as ex:
+            v = {"key": {"op": "public", "part": "exception"}, "what": "public restrict/constructor raised %s: %s" % (type(ex).__name__, str(ex)[:120]), "input": {"ts": ts, "ep": ep}}
         res.evaluations += 1
         if v:
             res.violations.append(v)
